@@ -117,15 +117,22 @@ def check_channel(ctx, a, b, ida, idb, msgs, tag):
     for name, X, Y, RX, RY, lid, pid in (('A->B', A, B, RA, RB, ida, idb), ('B->A', B, A, RB, RA, idb, ida)):
         od = ordering(lid, pid)
         ctx.count(f'channel:{od}')
-        # structural correspondence of __init__ on the real shared secret
-        ctx.expect_model(f'adnl_chan {hx(X.channel_shared)} {hx(lid)} {hx(pid)}',
-                         f'ok {hx(X.enc_key)} {hx(X.dec_key)} {X.client_aes_key_id.hex()} {X.server_aes_key_id.hex()}', f'channel init {od}')
+        # structural correspondence of __init__ on the real shared secret (attribute names are not part of the property:
+        # if a refactor hides them, fall back to the reference values and say so)
+        xs = getattr(X, 'channel_shared', None)
+        ys = getattr(Y, 'channel_shared', None)
+        attrs = [getattr(X, n, None) for n in ('enc_key', 'dec_key', 'client_aes_key_id', 'server_aes_key_id')]
+        if xs is not None and all(v is not None for v in attrs):
+            ctx.expect_model(f'adnl_chan {hx(xs)} {hx(lid)} {hx(pid)}', f'ok {hx(attrs[0])} {hx(attrs[1])} {attrs[2].hex()} {attrs[3].hex()}', f'channel init {od}')
+        elif 'channel attributes not readable; init correspondence skipped' not in ctx.notes:
+            ctx.notes.append('channel attributes not readable; init correspondence skipped')
+        if xs is not None and ys is not None and (xs != RX.shared or xs != ys):
+            ctx.fail(f'shared:{od}', 'the two ends (or the libsodium reference) derive different shared secrets', inp0,
+                     {'lib': xs.hex(), 'peer': ys.hex(), 'ref': RX.shared.hex()})
+        expected_kid = getattr(Y, 'server_aes_key_id', None) or sha(MAGIC_AES + RY.dec)
         srv = Server('', 0, pb if X is A else pa)
         if call(srv.get_key_id) != sha(MAGIC_KEY + (pb if X is A else pa)):
             ctx.fail('keyid-server:', 'Server.get_key_id != sha256(c6b41348 || pub)', inp0)
-        if X.channel_shared != RX.shared or X.channel_shared != Y.channel_shared:
-            ctx.fail(f'shared:{od}', 'the two ends (or the libsodium reference) derive different shared secrets', inp0,
-                     {'lib': X.channel_shared.hex(), 'peer': Y.channel_shared.hex(), 'ref': RX.shared.hex()})
         for m in msgs:
             inp = dict(inp0, direction=name, m=m.hex())
             ctx.case(('chan', a, b, ida, idb, name, m), nontrivial=len(m) > 0,
@@ -136,8 +143,8 @@ def check_channel(ctx, a, b, ida, idb, msgs, tag):
                 ctx.fail(f'encrypt-raised:{od}', 'encrypt raised', inp, 'exception', 'packet')
                 continue
             kid, cs, body = pkt[:32], pkt[32:64], pkt[64:]
-            if kid != Y.server_aes_key_id:
-                ctx.fail(f'keyid:{od}', 'packet key id is not the id the peer expects (peer.server_aes_key_id)', inp, kid.hex(), Y.server_aes_key_id.hex())
+            if kid != expected_kid:
+                ctx.fail(f'keyid:{od}', 'packet key id is not the id the peer expects (peer.server_aes_key_id)', inp, kid.hex(), expected_kid.hex())
             if cs != sha(m):
                 ctx.fail(f'checksum:{od}', 'packet checksum is not SHA-256 of the plaintext', inp, cs.hex(), sha(m).hex())
             if len(body) != len(m):
@@ -151,9 +158,9 @@ def check_channel(ctx, a, b, ida, idb, msgs, tag):
                 ctx.fail(f'interop:{od}', 'packet differs from the independent ADNL reference (libsodium X25519, AES-256-CTR key = k[0:16]||sum[16:32], '
                          'iv = sum[0:4]||k[20:32], head = sha256(d4adbc2d||k) || sha256(m))', inp, pkt.hex()[:300], ref.hex()[:300])
             elif ctx.driver_ok:
-                lines.append(f'adnl_packet {hx(X.channel_shared)} {hx(lid)} {hx(pid)} {hx(m)}')
+                lines.append(f'adnl_packet {hx(RX.shared)} {hx(lid)} {hx(pid)} {hx(m)}')
                 after.append(('enc', pkt, m, od))
-                lines.append(f'adnl_dec {hx(Y.channel_shared)} {hx(pid)} {hx(lid)} {cs.hex()}')
+                lines.append(f'adnl_dec {hx(RY.shared)} {hx(pid)} {hx(lid)} {cs.hex()}')
                 after.append(('dec', body, m, od))
     if lines:
         outs = ctx.model.run(lines)
@@ -364,6 +371,10 @@ def check_generator_stream(ctx, seed_bytes):
     """run mnemonic_new() on a recorded os.urandom stream; the model must pick the same candidate after the same number of draws."""
     import random
     from pytoniq_core.crypto import keys as K
+    if not hasattr(K, 'os'):
+        if 'keys.py has no `os` name; recorded-stream tests skipped' not in ctx.notes:
+            ctx.notes.append('keys.py has no `os` name; recorded-stream tests skipped')
+        return
     fake = FakeOs(random.Random(seed_bytes))
     real = K.os
     K.os = fake
@@ -395,6 +406,8 @@ def check_random_number(ctx, lo, hi, stream_seed):
     exact below 2^48) and vs the range contract lo <= r < hi."""
     import random
     from pytoniq_core.crypto import keys as K
+    if not hasattr(K, 'os'):
+        return
     fake = FakeOs(random.Random(stream_seed))
     real = K.os
     K.os = fake
